@@ -45,8 +45,9 @@ ALPHABET = {
 }
 BOUND = {
     "quick": "all W of shapes <= 6 entries over {0,1,2}; full parameter product; SART followed for up to 7 iterations",
-    "thorough": "all W of shapes <= 6 entries over {0,1,2,5} with the full (larger) parameter product, up to 12 iterations; "
-                "all 3x3 W over {0,1,2} with the reduced product (SART family) / full product (NNLS, LSQ, SVD)",
+    "thorough": "all W of shapes <= 6 entries (plus 1x3, 3x1) over {0,1,2,5} with the full parameter product, max_iterations 0..12, "
+                "all four (beta, L) pairs, relaxation 1.5 for W with <= 4 entries, alpha 10; all 3x3 W over {0,1,2} with the reduced "
+                "product (SART family) / quick alpha set and all Tikhonov matrices (NNLS, LSQ, SVD)",
 }
 RULE = ("one case per (family, W); inside a case every measurement vector and every parameter combination is executed on the "
         "real solver.  A lattice point (family, W, b) is non-trivial when the solver has work to do: SART family - the first "
@@ -75,8 +76,9 @@ REQUIRED_CLASSES = [
     "nnls:interior", "lstsq:negative-component", "lstsq:residual-reported", "lstsq:residual-not-reported",
     "svd:rank-deficient", "svd:full-rank",
 ]
-# safety caps only (the machine is shared): nominal cost is ~30 s / ~6 min on 16 free cores
-BUDGET_S = {"quick": 900, "thorough": 3600}
+# safety caps only (the machine is shared): nominal cost is ~0.4 k core-s (quick) / ~7 k core-s (thorough),
+# i.e. ~30 s / ~7 min on 16 free cores
+BUDGET_S = {"quick": 900, "thorough": 5400}
 CHUNK = 2
 
 _K = {"quick": 7, "thorough": 12}
